@@ -1,7 +1,756 @@
-//! C11 engine (not yet built).
-use crate::common::{CaseWriter, Opts};
+//! C11 — stdlib string / encoding / parsing / hashing functions against their definitions.
+//! Every case is one call of the REAL builtin through `function(a,b,c) std.<fn>(a,b,c)` with
+//! argument values built directly as `Val`s (so the lexer's string-literal decoding is not in the
+//! loop).  Strings travel as arrays of code points, numbers as decimal strings.
+//!   op "str.call"  {"fn":name,"a":[arg..]}     -> compared with Model/Spec in Lean (Model/Str.lean)
+//!   op "str.ext"   {"fn":name,"a":[arg..]}     -> Lean answers skip; checks/props/C11.py compares
+//!                                                  with hashlib / json / PyYAML (observation)
+use std::collections::BTreeMap;
+
+use jrsonnet_evaluator::{
+	function::NativeFn, typed::FromUntyped, val::ArrValue, val::NumValue, State, Thunk, Val,
+};
+use serde_json::{json, Value};
+
+use crate::common::{guarded, new_state, CaseWriter, Opts, Rng};
+
+type F1 = NativeFn<(Val, Val)>;
+type F2 = NativeFn<(Val, Val, Val)>;
+type F3 = NativeFn<(Val, Val, Val, Val)>;
+
+enum Fun {
+	A1(F1),
+	A2(F2),
+	A3(F3),
+}
+
+const ARITY: &[(&str, usize)] = &[
+	("length", 1),
+	("substr", 3),
+	("split", 2),
+	("splitLimit", 3),
+	("splitLimitR", 3),
+	("strReplace", 3),
+	("findSubstr", 2),
+	("startsWith", 2),
+	("endsWith", 2),
+	("stripChars", 2),
+	("lstripChars", 2),
+	("rstripChars", 2),
+	("trim", 1),
+	("asciiUpper", 1),
+	("asciiLower", 1),
+	("stringChars", 1),
+	("codepoint", 1),
+	("char", 1),
+	("equalsIgnoreCase", 2),
+	("isEmpty", 1),
+	("escapeStringBash", 1),
+	("escapeStringDollars", 1),
+	("escapeStringJson", 1),
+	("escapeStringPython", 1),
+	("escapeStringXML", 1),
+	("parseInt", 1),
+	("parseOctal", 1),
+	("parseHex", 1),
+	("parseJson", 1),
+	("parseYaml", 1),
+	("encodeUTF8", 1),
+	("decodeUTF8", 2),
+	("base64", 1),
+	("base64Decode", 1),
+	("base64DecodeBytes", 1),
+	("md5", 1),
+	("sha1", 1),
+	("sha256", 1),
+	("sha512", 1),
+	("sha3", 1),
+];
+
+fn make_fun(s: &State, name: &str, arity: usize) -> Fun {
+	let code = match (name, arity) {
+		("decodeUTF8", _) => "function(a, b) std.decodeUTF8(a, lossy=b)".to_string(),
+		(_, 1) => format!("function(a) std.{name}(a)"),
+		(_, 2) => format!("function(a, b) std.{name}(a, b)"),
+		_ => format!("function(a, b, c) std.{name}(a, b, c)"),
+	};
+	let v = s.evaluate_snippet("<c11>".to_owned(), code).expect("wrapper");
+	match arity {
+		1 => Fun::A1(FromUntyped::from_untyped(v).expect("f1")),
+		2 => Fun::A2(FromUntyped::from_untyped(v).expect("f2")),
+		_ => Fun::A3(FromUntyped::from_untyped(v).expect("f3")),
+	}
+}
+
+fn cps(s: &str) -> Value {
+	Value::Array(s.chars().map(|c| json!(c as u32)).collect())
+}
+fn jstr(s: &str) -> Value {
+	json!({ "s": cps(s) })
+}
+fn jnum(n: i64) -> Value {
+	json!({ "n": n })
+}
+fn jbytes(b: &[i64]) -> Value {
+	json!({ "arr": b.iter().map(|x| jnum(*x)).collect::<Vec<_>>() })
+}
+
+fn to_val(j: &Value) -> Val {
+	if let Some(s) = j.get("s") {
+		let st: String = s
+			.as_array()
+			.expect("s")
+			.iter()
+			.map(|c| char::from_u32(c.as_u64().expect("cp") as u32).expect("scalar"))
+			.collect();
+		Val::string(st)
+	} else if let Some(n) = j.get("n") {
+		Val::Num(NumValue::new(n.as_i64().expect("n") as f64).expect("finite"))
+	} else if let Some(a) = j.get("arr") {
+		let vals: Vec<Thunk<Val>> =
+			a.as_array().expect("arr").iter().map(|e| Thunk::evaluated(to_val(e))).collect();
+		Val::Arr(ArrValue::lazy(vals))
+	} else if let Some(b) = j.get("bool") {
+		Val::Bool(b.as_bool().expect("bool"))
+	} else {
+		Val::Null
+	}
+}
+
+fn num_text(f: f64) -> String {
+	if f.fract() == 0.0 {
+		let t = format!("{f:.0}");
+		if t == "-0" {
+			"0".to_string()
+		} else {
+			t
+		}
+	} else {
+		format!("frac:{:016x}", f.to_bits())
+	}
+}
+
+fn of_val(v: &Val) -> Result<Value, String> {
+	Ok(match v {
+		Val::Null => json!("null"),
+		Val::Bool(b) => json!({ "bool": b }),
+		Val::Num(n) => json!({ "n": num_text(n.get()) }),
+		Val::Str(s) => jstr(&s.to_string()),
+		Val::Arr(a) => {
+			let mut out = Vec::with_capacity(a.len());
+			for e in a.iter() {
+				let e = e.map_err(|e| format!("{}", e.error()))?;
+				out.push(of_val(&e)?);
+			}
+			json!({ "arr": out })
+		}
+		Val::Obj(o) => {
+			let mut m = serde_json::Map::new();
+			for k in o.fields(
+				#[cfg(feature = "exp-preserve-order")]
+				false,
+			) {
+				let fv = o
+					.get(k.clone())
+					.map_err(|e| format!("{}", e.error()))?
+					.ok_or_else(|| "missing".to_string())?;
+				m.insert(k.to_string(), of_val(&fv)?);
+			}
+			json!({ "obj": m })
+		}
+		_ => json!({ "other": 1 }),
+	})
+}
+
+fn call(f: &Fun, args: &[Value]) -> Value {
+	let a: Vec<Val> = args.iter().map(to_val).collect();
+	let r = guarded(|| {
+		let r = match f {
+			Fun::A1(f) => f.call(a[0].clone()),
+			Fun::A2(f) => f.call(a[0].clone(), a[1].clone()),
+			Fun::A3(f) => f.call(a[0].clone(), a[1].clone(), a[2].clone()),
+		};
+		r.map_err(|e| format!("{}", e.error())).and_then(|v| of_val(&v))
+	});
+	match r {
+		Ok(Ok(v)) => json!({ "ok": v }),
+		Ok(Err(m)) => json!({"err": 1, "_msg": m}),
+		Err(p) => json!({"panic": 1, "_msg": p}),
+	}
+}
+
+// ---------------------------------------------------------------------------------------------
+// generators
+
+const ALPHA: [char; 9] = ['a', 'B', ' ', 'é', 'ß', '→', '😀', '\u{301}', ','];
+
+fn all_strings(alpha: &[char], max: usize) -> Vec<String> {
+	let mut out = vec![String::new()];
+	let mut layer = vec![String::new()];
+	for _ in 0..max {
+		let mut next = Vec::new();
+		for s in &layer {
+			for c in alpha {
+				let mut t = s.clone();
+				t.push(*c);
+				next.push(t);
+			}
+		}
+		out.extend(next.iter().cloned());
+		layer = next;
+	}
+	out
+}
+
+fn rand_string(rng: &mut Rng, alpha: &[char], lo: usize, hi: usize) -> String {
+	let n = lo + rng.below(hi - lo + 1);
+	(0..n).map(|_| *rng.pick(alpha)).collect()
+}
+
+struct Gen<'a> {
+	w: CaseWriter,
+	funs: BTreeMap<&'static str, Fun>,
+	hist: BTreeMap<String, usize>,
+	lens: BTreeMap<usize, usize>,
+	nonascii: usize,
+	errs: usize,
+	panics: usize,
+	seen: std::collections::HashSet<String>,
+	_s: &'a State,
+}
+
+impl Gen<'_> {
+	fn emit(&mut self, op: &str, name: &'static str, args: Vec<Value>) {
+		let key = format!("{name}{}", Value::Array(args.clone()));
+		if !self.seen.insert(key) {
+			return;
+		}
+		let ans = call(&self.funs[name], &args);
+		*self.hist.entry(name.to_string()).or_default() += 1;
+		let mut size = 0usize;
+		for a in &args {
+			if let Some(s) = a.get("s").and_then(Value::as_array) {
+				size += s.len() + 1;
+				*self.lens.entry(s.len()).or_default() += 1;
+				if s.iter().any(|c| c.as_u64().unwrap_or(0) > 127) {
+					self.nonascii += 1;
+				}
+			} else if let Some(s) = a.get("arr").and_then(Value::as_array) {
+				size += s.len() + 1;
+			} else {
+				size += 1;
+			}
+		}
+		if ans.get("err").is_some() {
+			self.errs += 1;
+		}
+		if ans.get("panic").is_some() {
+			self.panics += 1;
+		}
+		self.w.case(json!({"op": op, "fn": name, "a": args, "size": size}), ans);
+	}
+	fn call(&mut self, name: &'static str, args: Vec<Value>) {
+		self.emit("str.call", name, args);
+	}
+	fn ext(&mut self, name: &'static str, args: Vec<Value>) {
+		self.emit("str.ext", name, args);
+	}
+}
+
+fn json_doc(rng: &mut Rng, depth: usize, yaml: bool) -> String {
+	let k = if depth == 0 { rng.below(5) } else { rng.below(7) };
+	let sp = |rng: &mut Rng| if yaml || rng.chance(1, 2) { " " } else { "" };
+	match k {
+		0 => "null".into(),
+		1 => (*rng.pick(&["true", "false"])).to_string(),
+		2 => {
+			let pool: &[&str] = if yaml {
+				&["0", "1", "-1", "42", "1.5", "-0.25", "123456789", "9007199254740991", "100.0"]
+			} else {
+				&["0", "1", "-1", "42", "1.5", "-0.25", "1e3", "1E-2", "123456789", "9007199254740991", "2.5e+3", "-0"]
+			};
+			(*rng.pick(pool)).to_string()
+		}
+		3 | 4 => {
+			let pool: &[&str] = if yaml {
+				&["", "a", "é", "😀", "a b", "yes", "null", "1", "x,y", "→ß", "q\\\"q", "t\\nn", "\\u00e9", "#c", "k: v", "- i", "~"]
+			} else {
+				&["", "a", "é", "😀", "a b", "yes", "null", "1", "x,y", "→ß", "q\\\"q", "t\\nn", "\\u00e9", "\\ud83d\\ude00", "#c", "k: v", "- i", "~", "\\/", "\\b\\f\\r\\t"]
+			};
+			format!("\"{}\"", rng.pick(pool))
+		}
+		5 => {
+			let n = rng.below(4);
+			let items: Vec<String> = (0..n).map(|_| json_doc(rng, depth - 1, yaml)).collect();
+			let s = sp(rng);
+			format!("[{}]", items.join(&format!(",{s}")))
+		}
+		_ => {
+			let n = rng.below(4);
+			let keys = ["a", "b", "é", "k k", "", "z1"];
+			let mut used = Vec::new();
+			let mut items = Vec::new();
+			for _ in 0..n {
+				let k = *rng.pick(&keys);
+				if used.contains(&k) {
+					continue;
+				}
+				used.push(k);
+				let s = sp(rng);
+				items.push(format!("\"{k}\":{s}{}", json_doc(rng, depth - 1, yaml)));
+			}
+			let s = sp(rng);
+			format!("{{{}}}", items.join(&format!(",{s}")))
+		}
+	}
+}
 
 pub fn run(opts: &Opts) {
-	let w = CaseWriter::new(&opts.out);
-	w.finish(serde_json::json!({"engine":"c11","cases":0,"rule":"stub"}), &opts.out);
+	let s = new_state();
+	let _g = s.enter();
+	let mut funs = BTreeMap::new();
+	for (n, a) in ARITY {
+		funs.insert(*n, make_fun(&s, n, *a));
+	}
+	let mut g = Gen {
+		w: CaseWriter::new(&opts.out),
+		funs,
+		hist: BTreeMap::new(),
+		lens: BTreeMap::new(),
+		nonascii: 0,
+		errs: 0,
+		panics: 0,
+		seen: std::collections::HashSet::new(),
+		_s: &s,
+	};
+	let mut rng = Rng::new(opts.seed);
+	let thorough = opts.thorough();
+	let scale = if thorough { 8 } else { 1 };
+
+	// ---- pools ----
+	let exh_len = if thorough { 4 } else { 3 };
+	let mut unary: Vec<String> = all_strings(&ALPHA, exh_len);
+	for _ in 0..400 * scale {
+		unary.push(rand_string(&mut rng, &ALPHA, exh_len + 1, 12));
+	}
+	// characters that matter to particular functions
+	let special: Vec<char> = vec![
+		'a', 'z', 'A', 'Z', '@', '[', '`', '{', 'm', 'M', '\'', '$', '"', '\\', '<', '>', '&', '/', '\0',
+		'\u{1}', '\u{8}', '\t', '\n', '\u{b}', '\u{c}', '\r', '\u{1f}', ' ', '\u{7f}', '\u{80}', '\u{85}',
+		'\u{a0}', '\u{e9}', '\u{c9}', '\u{17f}', '\u{212a}', '\u{2028}', '\u{3000}', '\u{feff}', '\u{ff41}',
+		'\u{d7ff}', '\u{e000}', '\u{ffff}', '\u{10000}', '\u{10ffff}', '0', '9',
+	];
+	let mut specials: Vec<String> = all_strings(&special, 1);
+	for _ in 0..600 * scale {
+		specials.push(rand_string(&mut rng, &special, 2, 8));
+	}
+	for name in [
+		"length", "trim", "asciiUpper", "asciiLower", "stringChars", "isEmpty", "escapeStringBash",
+		"escapeStringDollars", "escapeStringJson", "escapeStringPython", "escapeStringXML", "encodeUTF8",
+		"base64", "codepoint",
+	] {
+		for st in unary.iter().chain(specials.iter()) {
+			g.call(name, vec![jstr(st)]);
+		}
+	}
+	// wrong argument types (must be errors, never panics)
+	for name in ["length", "asciiUpper", "codepoint", "parseInt", "encodeUTF8", "base64Decode", "trim", "md5"] {
+		g.call(name, vec![jnum(1)]);
+		g.call(name, vec![json!({"bool": true})]);
+	}
+
+	// ---- substr ----
+	let sub_pool: Vec<String> = {
+		let mut v = all_strings(&['a', 'é', '😀'], 3);
+		for _ in 0..40 * scale {
+			v.push(rand_string(&mut rng, &ALPHA, 4, 12));
+		}
+		v
+	};
+	for st in &sub_pool {
+		let n = st.chars().count() as i64;
+		for from in 0..=n + 2 {
+			for len in 0..=n + 2 {
+				g.call("substr", vec![jstr(st), jnum(from), jnum(len)]);
+			}
+		}
+		for (from, len) in [(-1, 1), (0, -1), (1 << 40, 1), (0, 1 << 40), (1, (1 << 53) - 1), ((1 << 53) - 1, (1 << 53) - 1), (1 << 53, 0)] {
+			g.call("substr", vec![jstr(st), jnum(from), jnum(len)]);
+		}
+	}
+
+	// ---- two-string functions ----
+	let small: [char; 5] = ['a', 'B', 'é', '→', '😀'];
+	let tiny: [char; 2] = ['a', 'é'];
+	let mut pairs: Vec<(String, String)> = Vec::new();
+	{
+		let strs = all_strings(&small, 3);
+		let pats = all_strings(&small, 2);
+		for a in &strs {
+			for b in &pats {
+				pairs.push((a.clone(), b.clone()));
+			}
+		}
+		// overlapping / repeating
+		let strs = all_strings(&tiny, if thorough { 7 } else { 6 });
+		let pats = all_strings(&tiny, 3);
+		for a in &strs {
+			for b in &pats {
+				pairs.push((a.clone(), b.clone()));
+			}
+		}
+		// partial-byte overlaps: é=C3 A9, ß=C3 9F, ò=C3 B2, 😀=F0 9F 98 80, 😁=F0 9F 98 81, ©=C2 A9
+		let bytey: [char; 6] = ['é', 'ß', '©', '😀', '😁', 'ò'];
+		let strs = all_strings(&bytey, 3);
+		let pats = all_strings(&bytey, 2);
+		for a in &strs {
+			for b in &pats {
+				pairs.push((a.clone(), b.clone()));
+			}
+		}
+		for _ in 0..1500 * scale {
+			let a = rand_string(&mut rng, &ALPHA, 0, 12);
+			let b = if rng.chance(1, 2) && !a.is_empty() {
+				// a substring of a
+				let cs: Vec<char> = a.chars().collect();
+				let i = rng.below(cs.len());
+				let j = i + rng.below(cs.len() - i + 1);
+				cs[i..j].iter().collect()
+			} else {
+				rand_string(&mut rng, &ALPHA, 0, 4)
+			};
+			pairs.push((a, b));
+		}
+	}
+	for (a, b) in &pairs {
+		g.call("findSubstr", vec![jstr(b), jstr(a)]);
+		g.call("startsWith", vec![jstr(a), jstr(b)]);
+		g.call("endsWith", vec![jstr(a), jstr(b)]);
+		g.call("split", vec![jstr(a), jstr(b)]);
+		g.call("equalsIgnoreCase", vec![jstr(a), jstr(b)]);
+	}
+	g.call("startsWith", vec![jstr("a"), jnum(1)]);
+	g.call("endsWith", vec![jnum(1), jstr("a")]);
+	g.call("findSubstr", vec![jnum(1), jstr("a")]);
+	// case-insensitive compare: specials
+	for _ in 0..800 * scale {
+		let a = rand_string(&mut rng, &special, 0, 5);
+		let b: String = a
+			.chars()
+			.map(|c| match rng.below(4) {
+				0 => c.to_ascii_uppercase(),
+				1 => c.to_ascii_lowercase(),
+				2 => c,
+				_ => {
+					if c == 'k' { '\u{212a}' } else { c }
+				}
+			})
+			.collect();
+		g.call("equalsIgnoreCase", vec![jstr(&a), jstr(&b)]);
+		g.call("equalsIgnoreCase", vec![jstr("k"), jstr("\u{212a}")]);
+		g.call("equalsIgnoreCase", vec![jstr("s"), jstr("\u{17f}")]);
+	}
+	let step = if thorough { 1 } else { 3 };
+	for (i, (a, b)) in pairs.iter().enumerate() {
+		if i % step != 0 {
+			continue;
+		}
+		for n in [-1i64, 0, 1, 2, 3, 5] {
+			g.call("splitLimit", vec![jstr(a), jstr(b), jnum(n)]);
+			g.call("splitLimitR", vec![jstr(a), jstr(b), jnum(n)]);
+		}
+		for to in ["", "a", "é😀", b.as_str()] {
+			g.call("strReplace", vec![jstr(a), jstr(b), jstr(to)]);
+		}
+	}
+	g.call("splitLimit", vec![jstr("a,b"), jstr(","), jnum(-2)]);
+	g.call("splitLimitR", vec![jstr("a,b"), jstr(","), jnum(-2)]);
+	g.call("splitLimit", vec![jstr("a,b"), jstr(","), jnum((1 << 53) - 1)]);
+	g.call("splitLimitR", vec![jstr("a,b"), jstr(","), jnum((1 << 53) - 1)]);
+
+	// ---- strip family: chars as string and as array (with non-char elements) ----
+	for (i, (a, b)) in pairs.iter().enumerate() {
+		if i % step != 0 {
+			continue;
+		}
+		for name in ["stripChars", "lstripChars", "rstripChars"] {
+			g.call(name, vec![jstr(a), jstr(b)]);
+		}
+		if i % (step * 4) == 0 {
+			let mut arr: Vec<Value> = b.chars().map(|c| jstr(&c.to_string())).collect();
+			match rng.below(4) {
+				0 => arr.push(jnum(1)),
+				1 => arr.push(jstr("aé")),
+				2 => arr.push(jstr("")),
+				_ => {}
+			}
+			for name in ["stripChars", "lstripChars", "rstripChars"] {
+				g.call(name, vec![jstr(a), json!({ "arr": arr })]);
+			}
+		}
+	}
+	for _ in 0..600 * scale {
+		let cs = rand_string(&mut rng, &ALPHA, 1, 3);
+		let l = rand_string(&mut rng, &cs.chars().collect::<Vec<_>>(), 0, 3);
+		let r = rand_string(&mut rng, &cs.chars().collect::<Vec<_>>(), 0, 3);
+		let mid = rand_string(&mut rng, &ALPHA, 0, 6);
+		let st = format!("{l}{mid}{r}");
+		for name in ["stripChars", "lstripChars", "rstripChars"] {
+			g.call(name, vec![jstr(&st), jstr(&cs)]);
+		}
+	}
+	// trim: whitespace classes
+	let ws: [char; 12] = [' ', '\t', '\n', '\u{b}', '\u{c}', '\r', '\u{85}', '\u{a0}', '\u{2003}', '\u{3000}', 'x', 'é'];
+	for st in all_strings(&ws, 3) {
+		g.call("trim", vec![jstr(&st)]);
+	}
+
+	// ---- char / codepoint ----
+	for n in [
+		-1i64, 0, 1, 9, 10, 65, 127, 128, 255, 256, 0x7ff, 0x800, 0xd7ff, 0xd800, 0xdbff, 0xdc00, 0xdfff,
+		0xe000, 0xfffd, 0xffff, 0x10000, 0x1f600, 0x10ffff, 0x110000, 0x1fffff, 0x7fff_ffff, 0x8000_0000,
+		0xffff_ffff, 0x1_0000_0000, 0x1_0000_0041, 1 << 53,
+	] {
+		g.call("char", vec![jnum(n)]);
+	}
+	for _ in 0..300 * scale {
+		let n = match rng.below(3) {
+			0 => rng.range(0, 0x2ff),
+			1 => rng.range(0xd000, 0xe100),
+			_ => rng.range(0xff00, 0x110100),
+		};
+		g.call("char", vec![jnum(n)]);
+	}
+	g.call("char", vec![jstr("a")]);
+
+	// ---- parseInt / parseOctal / parseHex ----
+	let mut nums: Vec<String> = vec![
+		"", "-", "--1", "-0", "0", "00", "007", "7", "8", "9", "10", "-10", "+1", "1 ", " 1", "1e3", "0x10", "1.0",
+		"1_000", "9007199254740991", "9007199254740992", "9007199254740993", "9007199254740994",
+		"9007199254740995", "-9007199254740993", "18014398509481985", "18014398509481987",
+		"36028797018963970", "36028797018963974", "99999999999999999999", "123456789012345678901234567890",
+		"1fffffffffffff", "20000000000001", "20000000000000", "3fffffffffffff", "40000000000001",
+		"40000000000003", "ffffffffffffffffffff", "FFFFFFFFFFFFFF", "377777777777777777", "400000000000000001",
+		"400000000000000000", "777777777777777777777", "a", "f", "g", "A", "F", "G", "aF09", ":", ";", "<",
+		"=", ">", "?", "@", "/", "`", "[", "{", "1:", "1@", "1/", "1`", "1G", "1g", "１", "٣", "1１", "é", "1é",
+		"😀", "-a", "-:", "deadBEEF", "0:", "::", "7/", "78", "-7", "-8", "-f",
+	]
+	.into_iter()
+	.map(String::from)
+	.collect();
+	let digs: Vec<char> = "0123456789abcdefABCDEFgG:@/`- +１é".chars().collect();
+	for st in all_strings(&digs, 2) {
+		nums.push(st);
+	}
+	for _ in 0..1500 * scale {
+		let mut t = String::new();
+		if rng.chance(1, 5) {
+			t.push('-');
+		}
+		let base_digits: &[char] = match rng.below(3) {
+			0 => &['0', '1', '2', '3', '4', '5', '6', '7'],
+			1 => &['0', '1', '2', '3', '4', '5', '6', '7', '8', '9'],
+			_ => &['0', '1', '2', '3', '4', '5', '6', '7', '8', '9', 'a', 'b', 'c', 'd', 'e', 'f', 'A', 'B', 'C', 'D', 'E', 'F'],
+		};
+		let n = 1 + rng.below(24);
+		for _ in 0..n {
+			t.push(*rng.pick(base_digits));
+		}
+		if rng.chance(1, 8) {
+			let cs: Vec<char> = t.chars().collect();
+			let i = rng.below(cs.len());
+			t = cs[..i].iter().chain([*rng.pick(&digs)].iter()).chain(cs[i..].iter()).collect();
+		}
+		nums.push(t);
+	}
+	// decimal neighbours of 2^53 .. 2^56
+	for k in 53..=56u32 {
+		let p = 1u128 << k;
+		for d in 0..=(if thorough { 40u128 } else { 12 }) {
+			nums.push(format!("{}", p + d));
+			nums.push(format!("{}", p - d));
+			nums.push(format!("{:x}", p + d));
+			nums.push(format!("{:o}", p + d));
+		}
+	}
+	for st in &nums {
+		for name in ["parseInt", "parseOctal", "parseHex"] {
+			g.call(name, vec![jstr(st)]);
+		}
+	}
+
+	// ---- decodeUTF8 (strict and lossy) ----
+	let bset: [i64; 25] = [
+		0x00, 0x41, 0x7f, 0x80, 0x8f, 0x90, 0x9f, 0xa0, 0xbf, 0xc0, 0xc1, 0xc2, 0xdf, 0xe0, 0xe1, 0xec, 0xed,
+		0xee, 0xef, 0xf0, 0xf1, 0xf3, 0xf4, 0xf5, 0xff,
+	];
+	let mut byte_arrays: Vec<Vec<i64>> = vec![vec![]];
+	for a in bset {
+		byte_arrays.push(vec![a]);
+		for b in bset {
+			byte_arrays.push(vec![a, b]);
+		}
+	}
+	for _ in 0..2500 * scale {
+		let n = 3 + rng.below(4);
+		byte_arrays.push((0..n).map(|_| *rng.pick(&bset)).collect());
+	}
+	for _ in 0..1500 * scale {
+		// valid text, then damaged
+		let st = rand_string(&mut rng, &ALPHA, 1, 6);
+		let mut b: Vec<i64> = st.bytes().map(i64::from).collect();
+		byte_arrays.push(b.clone());
+		match rng.below(4) {
+			0 => {
+				b.truncate(rng.below(b.len() + 1));
+			}
+			1 => {
+				let i = rng.below(b.len());
+				b[i] = *rng.pick(&bset);
+			}
+			2 => {
+				let i = rng.below(b.len());
+				b.remove(i);
+			}
+			_ => {
+				let i = rng.below(b.len() + 1);
+				b.insert(i, *rng.pick(&bset));
+			}
+		}
+		byte_arrays.push(b);
+	}
+	for b in &byte_arrays {
+		g.call("decodeUTF8", vec![jbytes(b), json!({"bool": false})]);
+		g.call("decodeUTF8", vec![jbytes(b), json!({"bool": true})]);
+		if b.len() <= 4 || rng.chance(1, 4) {
+			g.call("base64", vec![jbytes(b)]);
+		}
+	}
+	for bad in [vec![256i64], vec![-1], vec![65, 256], vec![65, -1, 66]] {
+		g.call("decodeUTF8", vec![jbytes(&bad), json!({"bool": false})]);
+		g.call("decodeUTF8", vec![jbytes(&bad), json!({"bool": true})]);
+		g.call("base64", vec![jbytes(&bad)]);
+	}
+	g.call("decodeUTF8", vec![json!({"arr": [jstr("a")]}), json!({"bool": true})]);
+
+	// ---- base64 decode ----
+	let b64: Vec<char> = "AQZagz09+/=-_ \n".chars().collect();
+	let mut b64s = all_strings(&b64, if thorough { 4 } else { 3 });
+	for _ in 0..2500 * scale {
+		// a correct encoding, sometimes damaged
+		let n = rng.below(8);
+		let bytes: Vec<u8> = (0..n).map(|_| rng.below(256) as u8).collect();
+		let mut e = b64_ref(&bytes);
+		b64s.push(e.clone());
+		if rng.chance(1, 2) && !e.is_empty() {
+			let cs: Vec<char> = e.chars().collect();
+			let i = rng.below(cs.len());
+			e = match rng.below(3) {
+				0 => cs[..i].iter().chain(cs[i + 1..].iter()).collect(),
+				1 => cs[..i].iter().chain([*rng.pick(&b64)].iter()).chain(cs[i + 1..].iter()).collect(),
+				_ => cs[..i].iter().chain([*rng.pick(&b64)].iter()).chain(cs[i..].iter()).collect(),
+			};
+			b64s.push(e);
+		}
+		// text payloads
+		let t = rand_string(&mut rng, &ALPHA, 0, 5);
+		b64s.push(b64_ref(t.as_bytes()));
+	}
+	// every value of the final sextet with one and two padding characters (non-canonical trailing bits)
+	for c in "ABCDEFGHIJKLMNOPQRSTUVWXYZabcdefghijklmnopqrstuvwxyz0123456789+/".chars() {
+		b64s.push(format!("A{c}=="));
+		b64s.push(format!("AA{c}="));
+		b64s.push(format!("AAA{c}"));
+	}
+	b64s.push("é===".into());
+	b64s.push("AAé=".into());
+	for st in &b64s {
+		g.call("base64Decode", vec![jstr(st)]);
+		g.call("base64DecodeBytes", vec![jstr(st)]);
+	}
+
+	// ---- hashes (python hashlib) and parsers (python json / PyYAML): observation ----
+	let mut hash_in: Vec<String> = all_strings(&ALPHA, 2);
+	for _ in 0..120 * scale {
+		hash_in.push(rand_string(&mut rng, &ALPHA, 3, 12));
+	}
+	hash_in.push("a".repeat(55));
+	hash_in.push("a".repeat(56));
+	hash_in.push("a".repeat(64));
+	hash_in.push("é".repeat(72));
+	hash_in.push("😀".repeat(36));
+	hash_in.push("abc".repeat(100));
+	for st in &hash_in {
+		for name in ["md5", "sha1", "sha256", "sha512", "sha3"] {
+			g.ext(name, vec![jstr(st)]);
+		}
+	}
+	for i in 0..3000 * scale {
+		let yaml = i % 2 == 1;
+		let doc = json_doc(&mut rng, 3, yaml);
+		if yaml {
+			g.ext("parseYaml", vec![jstr(&doc)]);
+		}
+		g.ext("parseJson", vec![jstr(&doc)]);
+	}
+	for bad in ["", "{", "[1,]", "{\"a\":1,}", "nul", "01", "1 2", "\"\\x\"", "[1] x", "'a'", "[", "tru", "{\"a\" 1}", "{1:2}", "\"a", "[1 2]", "-", "1.", ".5", "+1", "0x10", "\t1\n", " [ ] ", "\u{feff}1"] {
+		g.ext("parseJson", vec![jstr(bad)]);
+	}
+
+	// ---- std.trace's debug format: long strings inside a value are shortened on bytes ----
+	let mut longs: Vec<String> = Vec::new();
+	for k in 0..4 {
+		longs.push(format!("{}{}", "a".repeat(k), "é".repeat(200)));
+		longs.push(format!("{}{}", "a".repeat(k), "→".repeat(100)));
+		longs.push(format!("{}{}", "a".repeat(k), "😀".repeat(70)));
+		longs.push(format!("{}{}", "a".repeat(k), "é".repeat(127)));
+		longs.push(format!("{}{}{}", "a".repeat(k), "é".repeat(126), "a".repeat(4 - k)));
+	}
+	longs.push("a".repeat(256));
+	longs.push("a".repeat(257));
+	longs.push("\"\n".repeat(129));
+	for _ in 0..150 * scale {
+		longs.push(rand_string(&mut rng, &ALPHA, 60, 200));
+	}
+	let mut n_trunc = 0usize;
+	for st in &longs {
+		let v = Val::Arr(ArrValue::lazy(vec![Thunk::evaluated(Val::string(st.clone()))]));
+		let r = guarded(|| v.manifest(jrsonnet_evaluator::manifest::JsonFormat::debug()));
+		let ans = match r {
+			Ok(Ok(text)) => json!({"ok": jstr(&text)}),
+			Ok(Err(e)) => json!({"err": 1, "_msg": format!("{}", e.error())}),
+			Err(p) => json!({"panic": 1, "_msg": p}),
+		};
+		if ans.get("panic").is_some() {
+			g.panics += 1;
+		}
+		g.w.case(json!({"op": "dbg.trunc", "fn": "trace", "v": jstr(st), "size": st.chars().count()}), ans);
+		n_trunc += 1;
+	}
+	g.hist.insert("trace(debug format)".into(), n_trunc);
+
+	let Gen { w, hist, lens, nonascii, errs, panics, .. } = g;
+	let n = w.n;
+	w.finish(
+		json!({
+			"engine": "c11", "cases": n, "per_function": hist, "string_arg_length_histogram": lens,
+			"string_args_with_non_ascii": nonascii, "error_answers": errs, "panics": panics,
+			"rule": "every listed std string/codec/parser builtin called in-process with Val arguments: all strings of length 0..3 (thorough 0..4) over {a,B,space,é,ß,→,😀,U+0301,','} plus sampled lengths up to 12 and a pool of function-specific special characters; pattern/separator pairs incl. overlapping and partial-byte-overlap patterns; offsets/counts 0..len+2, negative and 2^53-1; byte arrays over all UTF-8 lead/continuation classes of length 0..2 exhaustive and 3..6 sampled plus damaged valid text; base64 texts exhaustive to length 3 over a 15-symbol set plus damaged correct encodings and all final sextets; numeric strings around 2^53..2^56 in bases 8/10/16 and all 2-character strings over digit-boundary characters"
+		}),
+		&opts.out,
+	);
+}
+
+/// reference base64 encoder, used only to GENERATE inputs for the decoder cases
+fn b64_ref(b: &[u8]) -> String {
+	const T: &[u8; 64] = b"ABCDEFGHIJKLMNOPQRSTUVWXYZabcdefghijklmnopqrstuvwxyz0123456789+/";
+	let mut out = String::new();
+	for ch in b.chunks(3) {
+		let n = (u32::from(ch[0]) << 16) | (u32::from(*ch.get(1).unwrap_or(&0)) << 8) | u32::from(*ch.get(2).unwrap_or(&0));
+		out.push(T[(n >> 18) as usize & 63] as char);
+		out.push(T[(n >> 12) as usize & 63] as char);
+		out.push(if ch.len() > 1 { T[(n >> 6) as usize & 63] as char } else { '=' });
+		out.push(if ch.len() > 2 { T[n as usize & 63] as char } else { '=' });
+	}
+	out
 }
